@@ -473,3 +473,11 @@ func StdStreams() (stdin, stdout, stderr *os.File) {
 	}
 	return mk("/dev/stdin"), mk("/dev/stdout"), mk("/dev/stderr")
 }
+
+// StdoutText is what has been written to the standard output file of the model so far.
+func StdoutText() string {
+	if e, ok := Files["/dev/stdout"]; ok {
+		return e.Content
+	}
+	return ""
+}
